@@ -390,7 +390,8 @@ func (st *SlimTrie) getLeafPrefix(nodeid int32, qr *querySession) {
 
 		lp := ns.LeafPrefixes
 
-		if lp.PresenceBM.Words[wordI]&bitmap.Bit[bitI] != 0 {
+		// PresenceBM may be shorter than the number of leaves, e.g., when built without values.
+		if wordI < int32(len(lp.PresenceBM.Words)) && lp.PresenceBM.Words[wordI]&bitmap.Bit[bitI] != 0 {
 			ithPref := lp.PresenceBM.RankIndex[wordI] + int32(bits.OnesCount64(lp.PresenceBM.Words[wordI]&bitmap.Mask[bitI]))
 			ps := lp.PositionBM
 			from, to := bitmap.Select32R64(ps.Words, ps.SelectIndex, ps.RankIndex, ithPref)
